@@ -96,6 +96,10 @@ func (x *Ex) genFuncsMore(body *LeanFile) {
 	x.bodyStmts(body, "internal/webdoc", "Document", "GetImageURLs", "documentGetImageURLsBody", "C09")
 	x.bodyStmts(body, "internal/domutil", "", "CloneAndProcessList", "cloneAndProcessListBody", "C05", "C06")
 	x.bodyStmts(body, "internal/domutil", "", "CloneAndProcessTree", "cloneAndProcessTreeBody", "C04", "C05")
+	x.bodyStmts(body, "internal/filter/heuristic", "DocumentTitleMatch", "processPotentialTitle", "processPotentialTitleBody", "C15")
+	x.bodyStmts(body, "internal/filter/heuristic", "DocumentTitleMatch", "Process", "documentTitleMatchProcessBody", "C15")
+	x.bodyStmts(body, "internal/extractor", "ContentExtractor", "ensureTitleInitialized", "ensureTitleInitializedBody", "C15")
+	x.bodyStmts(body, "internal/extractor", "ContentExtractor", "ExtractTitle", "extractTitleBody", "C15")
 	x.bodyStmts(body, "internal/domutil", "", "GetOutputNodes", "getOutputNodesBody", "C04", "C05")
 	x.bodyStmts(body, "internal/domutil", "", "MakeAllLinksAbsolute", "makeAllLinksAbsoluteBody", "C06")
 	x.bodyStmts(body, "internal/webdoc", "WebDocumentBuilder", "flushBlock", "flushBlockBody", "C06")
